@@ -103,9 +103,7 @@ class Driver:
             while "array_type" in base:
                 base = base["array_type"]["base_type"]
             bfound = self.mod.find(base["atomic_type"]["reference"]) if "atomic_type" in base else None
-            param_elems = bool(bfound and bfound[0].get("runtime_parameter")) or \
-                bool(bfound and "structure" in bfound[0] and self.text_out_unsafe(bfound[0]))
-            if self.traits and not (param_elems and "text-out" not in self.force):
+            if self.traits:      # (arrays of parameterised structures too: fixed by a37c4e1)
                 s.append("(void)::emboss::WriteToString(%s);" % a)
             if not in_bits or "bits-iter" in self.force:      # open finding `iterate-array-inside-bits`
                 s.append("for (auto it = %s.begin(); it != %s.end(); ++it) { (void)*it; }" % (a, a))
@@ -130,8 +128,9 @@ class Driver:
     def equals_unsafe(self, t, seen=()):
         """Open finding `equals-on-structure-with-parameters`: Equals()/UncheckedEquals() of a
         structure that has runtime parameters (or contains one that has) does not compile."""
-        if self.force_equals or "equals" in self.force:
-            return False
+        # fixed by a37c4e1: Equals()/UncheckedEquals() are used on every structure (no steering any more;
+        # reverting the fix makes every module with a parameterised structure fail to compile)
+        return False
         key = id(t)
         if key in self._unsafe:
             return self._unsafe[key]
@@ -172,9 +171,8 @@ class Driver:
         return r
 
     def text_out_unsafe(self, t):
-        """Open finding `text-output-of-array-of-parameterized-structures`."""
-        if "text-out" in self.force:
-            return False
+        """Former finding `text-output-of-array-of-parameterized-structures` (fixed by a37c4e1): no steering."""
+        return False
 
         def local(x):
             for f in x.get("structure", {}).get("field", []):
@@ -189,9 +187,8 @@ class Driver:
         return self._transitive(t, local, self._c_textout)
 
     def text_in_unsafe(self, t):
-        """Open finding `text-input-of-writable-virtual-enum-field`."""
-        if "text-in" in self.force:
-            return False
+        """Former finding `text-input-of-writable-virtual-enum-field` (fixed by d48a2f1): no steering."""
+        return False
 
         def local(x):
             for f in x.get("structure", {}).get("field", []):
